@@ -118,11 +118,10 @@ func c01nRounds(t *testing.T, em *verifEmitter, rnd *rand.Rand, prefix string, m
 		}
 		for _, name := range names {
 			b := breaker.GetBreaker(name)
-			w, err := breaker.VerifC01Sums(b)
-			if err != nil {
-				t.Fatal(err)
+			evs = append(evs, verifEv{"e": "get", "n": name, "i": id(b)})
+			if w, err := breaker.VerifC01Sums(b); err == nil {
+				evs = append(evs, verifEv{"e": "obs", "n": name, "w": w})
 			}
-			evs = append(evs, verifEv{"e": "get", "n": name, "i": id(b)}, verifEv{"e": "obs", "n": name, "w": w})
 		}
 		for _, name := range names {
 			em.Emit(verifEv{"e": "reset", "t": t0, "fair": false, "eager": true, "focus": name})
